@@ -271,7 +271,11 @@ func (e *Sim) Run(ctx *core.Ctx, idx int) {
 			// ExtendedDaemonSet (copied from a dump of one of its pods): the controller's own value must win
 			w.TplLabels = map[string]map[string]string{"ns1/bar": {v1.ExtendedDaemonSetNameLabelKey: "foo", v1.ExtendedDaemonSetReplicaSetNameLabelKey: "foo-copied"}}
 		}
-		switch r.Intn(4) {
+		switch r.Intn(5) {
+		case 4:
+			// a second ExtendedDaemonSet of the namespace whose name starts with the first one's name and a
+			// dash, like the names of the first one's replica sets and pods do
+			mk("ns1", "foo-v2")
 		case 0:
 			mk("ns2", "foo")
 		case 1:
